@@ -80,6 +80,61 @@ def run_case(case, n):
     return {'runs': runs, 'cache': cache, 'view': view, 'samples': samples, 'contigs': contigs, 'printed': noise}
 
 
+def read_cache_dir(path):
+    cache = {}
+    cdir = os.path.abspath(path) + '_allele_cache'
+    if os.path.isdir(cdir):
+        for fn in sorted(os.listdir(cdir)):
+            try:
+                with gzip.open(os.path.join(cdir, fn), 'rt', newline='') as f:
+                    cache[fn] = f.read()
+            except BaseException as e:
+                cache[fn] = {'error': '%s: %s' % (type(e).__name__, e)}
+    return cache
+
+
+def run_group(group, n):
+    """several AlleleResolver objects alive in this process at once (possibly on different VCF files); an object is
+    constructed when an operation first names it; operations are executed in the given interleaved order"""
+    import pysam
+    from singlecellmultiomics.alleleTools import AlleleResolver
+    paths = []
+    for k, sess in enumerate(group['sessions']):
+        base = os.path.join(os.environ['SCMO_SCRATCH'], 'g%d_s%d.vcf' % (n, k))
+        write_vcf(base, sess['vcf'])
+        pysam.tabix_index(base, preset='vcf', force=True)
+        paths.append(base + '.gz')
+    objs, answers = {}, []
+    old = sys.stdout
+    sys.stdout = io.StringIO()
+    try:
+        for s_, i, q in group['ops']:
+            if (s_, i) not in objs:
+                cf = group['sessions'][s_]['objects'][i]
+                try:
+                    objs[(s_, i)] = AlleleResolver(
+                        paths[s_], phased=cf['phased'], lazyLoad=cf['lazy'], use_cache=cf['cache'],
+                        select_samples=cf['select'], chrom=cf['chrom'],
+                        ignore_conversions=(None if cf['ignore'] is None else set(tuple(x) for x in cf['ignore'])))
+                except BaseException as e:
+                    objs[(s_, i)] = None
+            ar = objs[(s_, i)]
+            if ar is None:
+                answers.append('RAISE')
+                continue
+            try:
+                if q[0] == 0:
+                    r = ar.getAllelesAt(q[1], q[2], q[3])
+                    answers.append(None if r is None else sorted(r))
+                else:
+                    answers.append(bool(ar.has_location(q[1], q[2])))
+            except BaseException as e:
+                answers.append({'error': '%s: %s' % (type(e).__name__, e)})
+    finally:
+        sys.stdout = old
+    return {'answers': answers, 'caches': [read_cache_dir(p_) for p_ in paths]}
+
+
 def read_cache_text(text, n):
     """the real read_cached on an arbitrary cache file"""
     from singlecellmultiomics.alleleTools import AlleleResolver
@@ -99,6 +154,14 @@ def read_cache_text(text, n):
 def handler(p):
     if 'cache_texts' in p:
         return {'texts': [read_cache_text(t, n) for n, t in enumerate(p['cache_texts'])]}
+    if 'groups' in p:
+        out = []
+        for n, g in enumerate(p['groups']):
+            try:
+                out.append(run_group(g, n))
+            except BaseException as e:
+                out.append({'error': '%s: %s' % (type(e).__name__, e)})
+        return {'groups': out}
     out = []
     for n, case in enumerate(p['cases']):
         try:
